@@ -320,6 +320,18 @@ func c07(c *Ctx) {
 		})
 		c.check(n >= 2, r, fnName(f)+":replica-alh-compared", c.pos(f.Pos()), fmt.Sprintf("%d Alh comparisons of the replica's commit/precommit state", n), "ExportTxByID no longer compares both the replica's committed and precommitted Alh with its own history")
 		c.ruleErrChecked(r, f, "mayUpdateReplicaState", upd, 1)
+		// the replica's acknowledgement is only taken into account after its state has been validated
+		for _, g := range []struct{ n, fld, id string }{{"committed", ".CommittedAlh)", "ReplicaState.CommittedTxID"}, {"precommitted", ".PrecommittedAlh)", "ReplicaState.PrecommittedTxID"}} {
+			g := g
+			alhEq := whenCond(true, func(a string) bool { return strings.Contains(a, " == ") && strings.Contains(a, ").Alh[") && strings.Contains(a, g.fld) })
+			none := whenCond(false, func(a string) bool { return strings.HasPrefix(a, "(const:0 < ") && strings.HasSuffix(a, g.id+")") })
+			q := &pathQ{fn: f, fromEntry: true, to: upd, barrier: anyEdge(alhEq, none)}
+			if w := q.bypass(); w != nil {
+				c.fail(r, fnName(f)+":replica-"+g.n+"-state-validated-before-ack", c.pos(w[len(w)-1].Pos()), "the replica's "+g.n+" state is counted as an acknowledgement without comparing its Alh with the primary's history: "+c.witnessStr(w))
+			} else {
+				c.ok(r, fnName(f)+":replica-"+g.n+"-state-validated-before-ack", c.pos(f.Pos()), "mayUpdateReplicaState is dominated by the "+g.n+" Alh equality edge (or the id is 0)")
+			}
+		}
 	}
 
 	// ---- C07.4 agreement with the replicator ------------------------------------------------------------------------
